@@ -60,9 +60,9 @@ def call(wi, fi, args, kwargs=None, bound=None):
         return 'raise', r.exc_type
 
 
-def construct_chopper(wi, wm, cls, b, e, freq, beam=0, phase=0):
+def construct_chopper(wi, wm, cls, b, e, freq, beam=0, phase=0, angle_unit='deg'):
     from sa.interp import RaiseSignal
-    deg = Unit.named('deg')
+    deg = Unit.named(angle_unit)
     if isinstance(b, tuple):
         begin = wm.array(wi, [sym_scalar(wi, wm, f'b{k}', deg, v) for k, v in enumerate(b)], 'slit')
         end = wm.array(wi, [sym_scalar(wi, wm, f'e{k}', deg, v) for k, v in enumerate(e)], 'slit')
@@ -327,6 +327,27 @@ def run(tier: str) -> Run:
                                                         'open_before_close_at_witness': order_ok}, key='pairs')
 
     # ---- R5: expansion over source pulses ----------------------------------------------------------------------
+    # ---- R6: asking twice gives the same answer --------------------------------------------------------------
+    r6 = run.rule('R6', 'a chopper reports the same openings on a second request (slit edges in deg and in rad: the unit conversion '
+                        'inside is then a no-op and may hand out the stored edges themselves)', 2)
+    for unit_, scale_ in (('deg', 1), ('rad', F(7, 400))):
+        T.reset()
+        wm = WitnessModel()
+        wi = WitnessInterp(repo, wm)
+        kind, ch = construct_chopper(wi, wm, cls, (10 * scale_, 200 * scale_), (40 * scale_, 330 * scale_), freq=28, beam=30 * scale_, phase=40 * scale_, angle_unit=unit_)
+        fp = sym_scalar(wi, wm, 'fp', Unit.named('Hz'), 14, positive=True)
+        firsts = [call(wi, f_, [], {'pulse_frequency': fp}, bound=ch) for f_ in (ofi, cfi_)]
+        seconds = [call(wi, f_, [], {'pulse_frequency': fp}, bound=ch) for f_ in (ofi, cfi_)]
+        probs = []
+        for nm, (k1, v1), (k2, v2) in zip(('time_offset_open', 'time_offset_close'), firsts, seconds, strict=True):
+            if k1 != 'return' or k2 != 'return' or items_of(v1) is None or items_of(v2) is None:
+                probs.append(f'{nm}: {k1} / {k2}')
+                continue
+            a1, a2 = [wm.value(x) for x in items_of(v1)], [wm.value(x) for x in items_of(v2)]
+            if a1 != a2 or None in a1:
+                probs.append(f'{nm}: first request {[float(x) for x in a1 if x is not None][:3]}, second {[float(x) for x in a2 if x is not None][:3]}')
+        r6.check(not probs, f'slit edges in {unit_}', loc(ofi), {'problems': probs}, key=f'second-request:{unit_}')
+
     r5 = run.rule('R5', 'from_disk_chopper: over npulses source pulses every reported (open, close) pair is an opening of the rotating disk '
                         '(a slit of one turn: base opening + k rotation periods), none is reported twice, none inside the covered time span '
                         'is missing; distance = |axle position|', 6)
